@@ -17,9 +17,9 @@ ASSUMPTIONS = [
 
 
 def tasks(tier):
-    from contracts.acse_neg import RequestorSiteTask
+    from contracts.acse_neg import RequestorSiteTask, RequestorSiteFamilyTask
     ts = [N.NegRequestorTask("C11/"), N.CompositionTask("C11/"), N.RoleTableTask("C11/"), N.TsInvariantTask("C11/"),
-          RequestorSiteTask("C11/")]
+          RequestorSiteTask("C11/"), RequestorSiteFamilyTask("C11/")]
     # wire form of the result list and of the role items (subset of the C01 tasks)
     ts += [codec.PrimTask("A_ASSOCIATE/ac", (2, 1, ("MaximumLengthNotification", "ImplementationClassUIDNotification")), "C11/"),
            codec.PrimTask("A_ASSOCIATE/ac", (1, 1, ("MaximumLengthNotification", "ImplementationClassUIDNotification",
